@@ -175,3 +175,66 @@ func (c *Ctx) rulesC02(a *coreAnchors) {
 }
 
 var _ = types.Identical
+
+// rulesC02x: the resolver's passes keep no state between calls; the auto
+// path re-resolves.
+func (c *Ctx) rulesC02x(a *coreAnchors) {
+	c.rule("C02.pure", "the resolver's filter passes (parseAdd, parseRequire, stateBlockedBy, sortRequire) are functions of their input: they write no field of the resolver, so the second parseAdd pass re-expands Add relations independently of the first")
+	c.rule("C02.reres", "on the auto path emitEvents re-resolves the target from the accepted called states (RelationsResolver.TargetStates) and recomputes Exits/Enters (setupExitEnter) unconditionally (guards: IsAuto() and !IsCheck only), before the state writer")
+	rr := c.namedType(pm, "DefaultRelationsResolver")
+	if rr != nil {
+		for _, name := range []string{"parseAdd", "parseRequire", "stateBlockedBy", "sortRequire"} {
+			f := c.fn(pm + ":DefaultRelationsResolver." + name)
+			if f == nil {
+				continue
+			}
+			bad := ""
+			visitWithClosures(f, func(ins ssa.Instruction) {
+				var addr ssa.Value
+				switch x := ins.(type) {
+				case *ssa.Store:
+					addr = x.Addr
+				case *ssa.MapUpdate:
+					addr = x.Map
+				}
+				if addr == nil {
+					return
+				}
+				valueTree(addr, 4, func(v ssa.Value) {
+					if fa, ok := v.(*ssa.FieldAddr); ok && namedOf(fa.X.Type()) == rr {
+						if fl := fieldOf(fa); fl != nil {
+							bad = fl.Name()
+						}
+					}
+				})
+			})
+			c.check(bad == "", "C02.pure", "DefaultRelationsResolver."+name+" writes no resolver field", f.Pos(), "the pass stores into resolver field "+bad+": state carried between passes makes the second pass depend on the first")
+		}
+	}
+	c.floor("C02.pure", 3)
+	f := a.emitEvents
+	sets := c.sitesIn(f, funcKey(a.setActive))
+	for _, spec := range []struct{ name, callee string }{
+		{"re-resolve (resolver.TargetStates)", "iface:RelationsResolver.TargetStates"},
+		{"recompute Exits/Enters (setupExitEnter)", pm + ":Transition.setupExitEnter"},
+	} {
+		sites := c.sitesIn(f, spec.callee)
+		c.check(len(sites) == 1, "C02.reres", "emitEvents auto path: "+spec.name+" present", f.Pos(), fmt.Sprintf("%d sites", len(sites)))
+		for i, s := range sites {
+			gs := guardsOf(s.Block())
+			auto, other := false, ""
+			for _, g := range gs {
+				switch {
+				case gCallTruth("", "Transition", "IsAuto", true).Match(g):
+					auto = true
+				case a.notCheck().Match(g):
+				default:
+					other = render(g.Cond)
+				}
+			}
+			before := len(sets) == 1 && strictlyBefore(s, sets[0])
+			c.check(auto && other == "" && before, "C02.reres", "emitEvents auto path: "+spec.name+" is unconditional"+nth(i), s.Pos(),
+				fmt.Sprintf("must run for every auto transition (guards IsAuto && !IsCheck only, before setActiveStates); extra condition: %q, guards=%v", other, guardStrings(gs)))
+		}
+	}
+}
